@@ -137,29 +137,29 @@ Lemma san_sel_field tm sc ip a n ty d x sub result scr :
   san_sel tm sc ip (SanField a n ty d (x :: sub)) (result, scr) =
   let '(child, sf) := sanitize tm sc (x :: sub) (ip ++ [a]) in
   let scr1 := sc_merge scr sf in
-  let '(child', added) := add_scrub_fields tm sc child ty in
+  let '(child', added) := add_scrub_fields tm sc child ty false in
   (add_to_result result [SanField a n ty d child'], unset_selected sc (ip ++ [a]) (x :: sub) (set_missing sc ip a ty child' scr1 added)).
 Proof.
   cbn [san_sel]. rewrite level_go. rewrite sanitize_level. cbn [level fold_left].
   fold (level tm sc (ip ++ [a]) sub (san_sel tm sc (ip ++ [a]) x ([], []))).
   destruct (level tm sc (ip ++ [a]) sub (san_sel tm sc (ip ++ [a]) x ([], []))) as [child sf]. cbn [fst snd].
-  destruct (add_scrub_fields tm sc child ty). reflexivity.
+  destruct (add_scrub_fields tm sc child ty false). reflexivity.
 Qed.
 Lemma san_sel_frag tm sc ip c o fd sub result scr :
   san_sel tm sc ip (SanFrag c o fd sub) (result, scr) =
   let '(child, sf) := sanitize tm sc sub ip in
   let scr1 := sc_merge scr sf in
-  let '(child', added) := add_scrub_fields tm sc child c in
+  let '(child', added) := add_scrub_fields tm sc child c true in
   let scr2 := set_frag sc ip c scr1 added in
   match kind_of sc o with
   | KIface => (add_to_result result (sanitize_iface sc child' c o fd), scr2)
   | KUnion => (add_to_result result (if other_abstract sc c o then sanitize_iface sc child' c o fd else sanitize_union child' c o fd), scr2)
-  | KOther => (add_to_result result child', scr2)
+  | KOther => (add_to_result result (narrow_to_type sc child' o), scr2)
   end.
 Proof.
   cbn [san_sel]. rewrite level_go. rewrite sanitize_level.
   destruct (level tm sc ip sub ([], [])) as [child sf]. cbn [fst snd].
-  destruct (add_scrub_fields tm sc child c). reflexivity.
+  destruct (add_scrub_fields tm sc child c true). reflexivity.
 Qed.
 
 (* what processing one selection of a level takes out of the registrations made so far: for a field, what the client
@@ -175,11 +175,11 @@ Proof.
   intros H Hn. destruct s as [a n ty d [|y sub]|c o fd sub].
   - cbn [san_sel snd]. exact H.
   - rewrite san_sel_field. destruct (sanitize tm sc (y :: sub) (ip ++ [a])) as [child sf].
-    destruct (add_scrub_fields tm sc child ty) as [child' added]. cbn [snd].
+    destruct (add_scrub_fields tm sc child ty false) as [child' added]. cbn [snd].
     apply unset_selected_other; [apply set_missing_mono, sc_merge_left, H|].
     intros E H'. apply Hn. cbn [takes_out]. split; assumption.
   - rewrite san_sel_frag. destruct (sanitize tm sc sub ip) as [child sf].
-    destruct (add_scrub_fields tm sc child c) as [child' added].
+    destruct (add_scrub_fields tm sc child c true) as [child' added].
     assert (In x (set_frag sc ip c (sc_merge scr sf) added)).
     { apply set_frag_mono, sc_merge_left, H. }
     destruct (kind_of sc o); cbn [snd]; assumption.
@@ -205,10 +205,10 @@ Qed.
 
 (* the helper fields the sanitizer adds to the selection of this occurrence of a field *)
 Definition added_for (tm : tmap) (sc : sschema) (ip : list string) (a ty : string) (sub : list ssel) : list string :=
-  snd (add_scrub_fields tm sc (fst (sanitize tm sc sub (ip ++ [a]))) ty).
+  snd (add_scrub_fields tm sc (fst (sanitize tm sc sub (ip ++ [a]))) ty false).
 (* the selection of that occurrence after sanitizing and adding the helpers *)
 Definition selection_for (tm : tmap) (sc : sschema) (ip : list string) (a ty : string) (sub : list ssel) : list ssel :=
-  fst (add_scrub_fields tm sc (fst (sanitize tm sc sub (ip ++ [a]))) ty).
+  fst (add_scrub_fields tm sc (fst (sanitize tm sc sub (ip ++ [a]))) ty false).
 
 (* no occurrence of the response key at that place selects the field itself, through a fragment, for that type *)
 Definition not_client_selected (sc : sschema) (ss : list ssel) (ip : list string) (a : string) (ip' : list string) (T f : string) : Prop :=
@@ -232,7 +232,7 @@ Proof.
     apply level_mono.
     + match goal with |- context [san_sel _ _ _ _ ?acc] => destruct acc as [result scr] end. rewrite san_sel_field.
       unfold added_for in Hf. unfold selection_for in Hfr. destruct (sanitize tm sc (x :: sub) (ip ++ [a])) as [child sf]. cbn [fst] in Hf, Hfr.
-      destruct (add_scrub_fields tm sc child ty) as [child' added]. cbn [fst snd] in *.
+      destruct (add_scrub_fields tm sc child ty false) as [child' added]. cbn [fst snd] in *.
       apply unset_selected_other; [apply set_missing_in; assumption|]. cbn [fst snd]. intros _.
       apply (Hcs n ty d (x :: sub)). apply occ_here. exact Hin0.
     + intros s' Hs'. destruct s' as [a' n' ty' d' sub'|]; cbn [takes_out fst snd]; [|tauto]. intros [E Hsel].
@@ -247,7 +247,7 @@ Proof.
     + match goal with |- context [san_sel _ _ _ _ ?acc] => destruct acc as [result scr] end.
       destruct sub0 as [|y sub0']; [inversion Hocc; subst; match goal with H : In _ [] |- _ => destruct H end|].
       rewrite san_sel_field. destruct (sanitize tm sc (y :: sub0') (ip ++ [a0])) as [child sf]. cbn [snd] in IH.
-      destruct (add_scrub_fields tm sc child ty0) as [child' added]. cbn [snd].
+      destruct (add_scrub_fields tm sc child ty0 false) as [child' added]. cbn [snd].
       apply unset_selected_other; [apply set_missing_mono, sc_merge_right, IH|]. cbn [fst snd]. intros E.
       exfalso. revert E. apply tail_neq. lia.
     + intros s' Hs'. destruct s' as [a' n' ty' d' sub'|]; cbn [takes_out fst snd]; [|tauto]. intros [E _].
@@ -260,7 +260,7 @@ Proof.
     apply level_mono.
     + match goal with |- context [san_sel _ _ _ _ ?acc] => destruct acc as [result scr] end.
       rewrite san_sel_frag. destruct (sanitize tm sc sub0 ip) as [child sf]. cbn [snd] in IH.
-      destruct (add_scrub_fields tm sc child c) as [child' added].
+      destruct (add_scrub_fields tm sc child c true) as [child' added].
       assert (In (ip' ++ [a], T, f) (set_frag sc ip c (sc_merge scr sf) added)).
       { apply set_frag_mono, sc_merge_right, IH. }
       destruct (kind_of sc o); cbn [snd]; assumption.
@@ -271,42 +271,43 @@ Proof.
 Qed.
 
 (* what add_scrub_fields adds are the two helper names, each at most once, and only when the selection lacks it *)
-Lemma added_only_helpers tm sc ss t f : In f (snd (add_scrub_fields tm sc ss t)) -> f = "__typename" \/ f = "id".
+Lemma added_only_helpers tm sc ss t fr f : In f (snd (add_scrub_fields tm sc ss t fr)) -> f = "__typename" \/ f = "id".
 Proof.
   unfold add_scrub_fields.
   destruct ((match kind_of sc t with KOther => false | _ => true end) && negb (has_direct ss "__typename")) eqn:E1.
   - match goal with |- context [if negb ?b then _ else _] => destruct (negb b) end; cbn [snd].
     + intros [<-|[]]. left. reflexivity.
-    + destruct (contains (typename_helper :: ss) "id"); cbn [snd].
+    + match goal with |- context [if ?c then (?x, ?y) else _] => destruct c end; cbn [snd].
       * intros [<-|[]]. left. reflexivity.
       * intros [<-|[<-|[]]]; [left|right]; reflexivity.
   - match goal with |- context [if negb ?b then _ else _] => destruct (negb b) end; cbn [snd].
     + intros [].
-    + destruct (contains ss "id"); cbn [snd]; [intros []|intros [<-|[]]; right; reflexivity].
+    + match goal with |- context [if ?c then (?x, ?y) else _] => destruct c end; cbn [snd]; [intros []|intros [<-|[]]; right; reflexivity].
 Qed.
 Lemma has_direct_contains ss n : has_direct ss n = true -> contains ss n = true.
 Proof.
   unfold has_direct, contains. intros H. apply existsb_exists in H as (x & Hx & Hn). apply existsb_exists. exists x.
   split; [exact Hx|]. destruct x; [exact Hn|discriminate].
 Qed.
-(* a helper is added only when the client did not select that field on this level himself
-   (`id`: nor inside any fragment of this level) *)
-Lemma added_not_selected tm sc ss t f : In f (snd (add_scrub_fields tm sc ss t)) -> has_direct ss f = false.
+(* a helper is added only when the client did not select that field on this level himself *)
+Lemma added_not_selected tm sc ss t fr f : In f (snd (add_scrub_fields tm sc ss t fr)) -> has_direct ss f = false.
 Proof.
   assert (Hid : forall l, contains l "id" = false -> has_direct l "id" = false).
   { intros l H. destruct (has_direct l "id") eqn:E; [|reflexivity]. apply has_direct_contains in E. congruence. }
+  assert (Hc : forall (b : bool) l, (if b then has_direct l "id" else contains l "id") = false -> has_direct l "id" = false).
+  { intros b l H. destruct b; [exact H|apply Hid, H]. }
   unfold add_scrub_fields.
   destruct ((match kind_of sc t with KOther => false | _ => true end) && negb (has_direct ss "__typename")) eqn:E1.
   - apply andb_true_iff in E1 as [_ E1]. apply negb_true_iff in E1.
     match goal with |- context [if negb ?b then _ else _] => destruct (negb b) end; cbn [snd].
     + intros [<-|[]]. exact E1.
-    + destruct (contains (typename_helper :: ss) "id") eqn:E2; cbn [snd].
+    + match goal with |- context [if ?c then (?x, ?y) else _] => destruct c eqn:E2 end; cbn [snd].
       * intros [<-|[]]. exact E1.
-      * intros [<-|[<-|[]]]; [exact E1|]. apply Hid. cbn [contains existsb contains_field typename_helper] in E2.
+      * intros [<-|[<-|[]]]; [exact E1|]. apply Hc in E2. cbn [has_direct existsb typename_helper] in E2.
         rewrite orb_false_iff in E2. apply E2.
   - match goal with |- context [if negb ?b then _ else _] => destruct (negb b) end; cbn [snd].
     + intros [].
-    + destruct (contains ss "id") eqn:E2; cbn [snd]; [intros []|intros [<-|[]]; apply Hid, E2].
+    + match goal with |- context [if ?c then (?x, ?y) else _] => destruct c eqn:E2 end; cbn [snd]; [intros []|intros [<-|[]]; apply (Hc _ _ E2)].
 Qed.
 
 (* non-vacuity: { me { name friend { phone } } beings { ... on Pet { weight } } } on Human/Pet Node types, Being a union *)
@@ -327,17 +328,17 @@ Proof. vm_compute. reflexivity. Qed.
 (* the selection the sanitizer leaves for a field of an abstract type asks for __typename on that very level: every
    object there — of whatever possible type — comes back with it (the hypothesis of C13's scrub theorem, at the places
    where a field of a union or interface type is selected) *)
-Lemma abstract_selection_has_typename tm sc ss t :
-  kind_of sc t <> KOther -> has_direct (fst (add_scrub_fields tm sc ss t)) "__typename" = true.
+Lemma abstract_selection_has_typename tm sc ss t fr :
+  kind_of sc t <> KOther -> has_direct (fst (add_scrub_fields tm sc ss t fr)) "__typename" = true.
 Proof.
   intros Hk. unfold add_scrub_fields.
   assert (Ha : (match kind_of sc t with KOther => false | _ => true end) = true) by (destruct (kind_of sc t); [reflexivity|reflexivity|contradiction]).
   rewrite Ha. cbn [andb].
   destruct (has_direct ss "__typename") eqn:E; cbn [negb].
   - match goal with |- context [if negb ?b then _ else _] => destruct (negb b) end; cbn [fst]; [exact E|].
-    destruct (contains ss "id"); cbn [fst]; [exact E|]. cbn [has_direct existsb id_helper]. cbn. exact E.
+    match goal with |- context [if ?c then (?x, ?y) else _] => destruct c end; cbn [fst]; [exact E|]. cbn [has_direct existsb id_helper]. cbn. exact E.
   - match goal with |- context [if negb ?b then _ else _] => destruct (negb b) end; cbn [fst]; [reflexivity|].
-    destruct (contains (typename_helper :: ss) "id"); cbn [fst]; reflexivity.
+    match goal with |- context [if ?c then (?x, ?y) else _] => destruct c end; cbn [fst]; reflexivity.
 Qed.
 
 (* ---- no response key of a level is lost: a field selected directly on a level has a field with its response key in
@@ -364,9 +365,9 @@ Proof.
   intros H. destruct s as [a0 n ty d [|y sub]|c o fd sub].
   - cbn [san_sel fst]. apply has_alias_mono, H.
   - rewrite san_sel_field. destruct (sanitize tm sc (y :: sub) (ip ++ [a0])) as [child sf].
-    destruct (add_scrub_fields tm sc child ty) as [child' added]. cbn [fst]. apply has_alias_mono, H.
+    destruct (add_scrub_fields tm sc child ty false) as [child' added]. cbn [fst]. apply has_alias_mono, H.
   - rewrite san_sel_frag. destruct (sanitize tm sc sub ip) as [child sf].
-    destruct (add_scrub_fields tm sc child c) as [child' added].
+    destruct (add_scrub_fields tm sc child c true) as [child' added].
     destruct (kind_of sc o); cbn [fst]; apply has_alias_mono, H.
 Qed.
 Lemma level_keeps_aliases tm sc ip ss : forall acc a, has_alias (fst acc) a -> has_alias (fst (level tm sc ip ss acc)) a.
@@ -384,5 +385,5 @@ Proof.
   destruct sub as [|y sub'].
   - cbn [san_sel fst]. apply add_to_result_alias.
   - rewrite san_sel_field. destruct (sanitize tm sc (y :: sub') (ip ++ [a])) as [child sf].
-    destruct (add_scrub_fields tm sc child ty) as [child' added]. cbn [fst]. apply add_to_result_alias.
+    destruct (add_scrub_fields tm sc child ty false) as [child' added]. cbn [fst]. apply add_to_result_alias.
 Qed.
